@@ -234,6 +234,7 @@ _add("C09", S+"Received")
 _add("C13", "(*http.Server).routeData")
 _add("C13", "payload.NewDecoder", ["name-and-predecessor-of-every-part-are-converted", "malformed-header-is-refused"])
 # round 6 (sixth batch)
+_add("C05", S+"cleanStrays", ["log-is-searched-back-sixty-times-the-age", "delete-needs-delivered-same-hash", "reads-companion-of-the-partial"])
 _add("C15", "(*control.Postgres).IsValid")
 _add("C15", H+"getGateKeeper")
 _add("C20", H+"routeInternal")
